@@ -119,7 +119,6 @@ func (p *Program) keepsMapCheck(callee *ssa.Function, tname string) string {
 	taken := p.addressTaken()
 	seen := map[*ssa.Function]bool{}
 	work := []*ssa.Function{callee}
-	addAllTaken := false
 	isT := func(t types.Type) bool {
 		n, ok := t.(*types.Named)
 		return ok && n.Obj().Name() == tname
@@ -157,11 +156,8 @@ func (p *Program) keepsMapCheck(callee *ssa.Function, tname string) string {
 						}
 						continue
 					}
-					if cc.StaticCallee() == nil && !addAllTaken {
-						addAllTaken = true
-						for f := range taken {
-							work = append(work, f)
-						}
+					if cc.StaticCallee() == nil {
+						work = append(work, p.dynTargets(cc, taken)...)
 					}
 				}
 			}
@@ -176,10 +172,13 @@ func (p *Program) keepsElemsCheck(callee *ssa.Function, tname string) string {
 	taken := p.addressTaken()
 	seen := map[*ssa.Function]bool{}
 	work := []*ssa.Function{callee}
-	addAllTaken := false
 	isT := func(t types.Type) bool {
 		if t == nil {
 			return false
+		}
+		if tname == "byte" {
+			b, ok := t.Underlying().(*types.Basic)
+			return ok && b.Kind() == types.Uint8
 		}
 		if pt, ok := t.(*types.Pointer); ok && strings.HasPrefix(tname, "*") {
 			n, ok := pt.Elem().(*types.Named)
@@ -231,11 +230,25 @@ func (p *Program) keepsElemsCheck(callee *ssa.Function, tname string) string {
 						}
 						continue
 					}
-					if cc.StaticCallee() == nil && !addAllTaken {
-						addAllTaken = true
-						for f := range taken {
-							work = append(work, f)
+					if tname == "byte" {
+						// dependencies that write into a byte slice they are handed
+						wr := ""
+						if cc.IsInvoke() {
+							if normMethodName(cc.Method.FullName()) == "(io.Reader).Read" {
+								wr = "(io.Reader).Read"
+							}
+						} else if sc := cc.StaticCallee(); sc != nil && !p.inScope(sc) {
+							n := fullName(sc)
+							if n == "unicode/utf8.EncodeRune" || n == "unicode/utf8.AppendRune" || strings.HasPrefix(n, "strconv.Append") || n == "io.ReadFull" || n == "io.ReadAtLeast" {
+								wr = n
+							}
 						}
+						if wr != "" {
+							return fmt.Sprintf("%s calls %s, which writes a byte slice (%s)", fn.String(), wr, p.posStr(in.Pos()))
+						}
+					}
+					if cc.StaticCallee() == nil {
+						work = append(work, p.dynTargets(cc, taken)...)
 					}
 				}
 			}
@@ -294,7 +307,6 @@ func (p *Program) keepsCheckUncached(callee *ssa.Function, spec string) string {
 	taken := p.addressTaken()
 	seen := map[*ssa.Function]bool{}
 	work := []*ssa.Function{callee}
-	addAllTaken := false
 	for len(work) > 0 {
 		fn := work[len(work)-1]
 		work = work[:len(work)-1]
@@ -334,15 +346,60 @@ func (p *Program) keepsCheckUncached(callee *ssa.Function, spec string) string {
 					if _, isB := cc.Value.(*ssa.Builtin); isB {
 						continue
 					}
-					if cc.StaticCallee() == nil && !addAllTaken {
-						addAllTaken = true
-						for f := range taken {
-							work = append(work, f)
-						}
+					if cc.StaticCallee() == nil {
+						work = append(work, p.dynTargets(cc, taken)...)
 					}
 				}
 			}
 		}
 	}
 	return ""
+}
+
+// dynTargets: the in-scope functions a call through a function value or an interface method may reach:
+// address-taken functions and closures of identical signature; methods of that name and signature.
+func (p *Program) dynTargets(cc *ssa.CallCommon, taken map[*ssa.Function]bool) []*ssa.Function {
+	var out []*ssa.Function
+	if cc.IsInvoke() {
+		want := cc.Method.Type().(*types.Signature)
+		for _, fn := range p.allFuncsIncludingSynthetic() {
+			if fn.Signature.Recv() == nil || fn.Name() != cc.Method.Name() || !p.inScope(fn) {
+				continue
+			}
+			if sameParams(fn.Signature, want) {
+				out = append(out, fn)
+			}
+		}
+		return out
+	}
+	sig, ok := cc.Value.Type().Underlying().(*types.Signature)
+	if !ok {
+		for f := range taken {
+			out = append(out, f)
+		}
+		return out
+	}
+	for f := range taken {
+		if sameParams(f.Signature, sig) {
+			out = append(out, f)
+		}
+	}
+	return out
+}
+
+func sameParams(a, b *types.Signature) bool {
+	if a.Params().Len() != b.Params().Len() || a.Results().Len() != b.Results().Len() {
+		return false
+	}
+	for i := 0; i < a.Params().Len(); i++ {
+		if !types.Identical(a.Params().At(i).Type(), b.Params().At(i).Type()) {
+			return false
+		}
+	}
+	for i := 0; i < a.Results().Len(); i++ {
+		if !types.Identical(a.Results().At(i).Type(), b.Results().At(i).Type()) {
+			return false
+		}
+	}
+	return true
 }
